@@ -135,4 +135,50 @@ def check(facts):
                 r.sample({"function": fn, "site_line": t.get("line"), "flag": b.local_name(flag) or "_%d" % flag,
                           "aggregates": uses, "guarded_complements": len(guarded)})
     r.floor("property_escape_sites", nsites, 4)
+    # \p{Name=Value}: the name part is set at most once (a second `=` is a syntax error, not a new name)
+    fnp = [n for n in facts.body_names() if n.endswith("::" + ANCHOR) and "{closure" not in n]
+    for fn in fnp:
+        b = facts.body(fn)
+        dom = b.dom()
+        names = [l for l in range(b.argc + 1, len(b.locals)) if b.local_name(l) and "Option<" in b.local_ty(l) and "UnicodePropertyName" in b.local_ty(l)]
+        for nl in names:
+            k = 0
+            for bi, si, kind, pay in b.defs().get(nl, []):
+                if kind != "assign":
+                    continue
+                rv_ = pay["rv"]
+                if rv_["k"] == "use" and rv_["op"].get("k") in ("copy", "move") and not rv_["op"]["pl"]["p"]:
+                    d1 = b.single_def(rv_["op"]["pl"]["l"])
+                    if d1 and d1[2] == "assign":
+                        rv_ = d1[3]["rv"]
+                if rv_["k"] != "agg" or str(rv_.get("variant")) != "Some":
+                    continue
+                k += 1
+                key = "%s sets the property name once #%d" % (fn, k)
+                guarded = False
+                for d in dom[bi]:
+                    t = b.blocks[d]["t"]
+                    if t["k"] != "switch" or t["discr"].get("k") not in ("copy", "move"):
+                        continue
+                    dd = b.single_def(t["discr"]["pl"]["l"])
+                    if not dd:
+                        continue
+                    if dd[2] == "call" and (dd[3].get("callee") or "").endswith("is_none") and dd[3]["args"] and \
+                            dd[3]["args"][0].get("k") in ("copy", "move") and b.root_of(dd[3]["args"][0]["pl"]["l"])[0] == nl:
+                        if t["otherwise"] == bi or t["otherwise"] in dom[bi]:
+                            guarded = True
+                    if dd[2] == "call" and (dd[3].get("callee") or "").endswith("is_some") and dd[3]["args"] and \
+                            dd[3]["args"][0].get("k") in ("copy", "move") and b.root_of(dd[3]["args"][0]["pl"]["l"])[0] == nl:
+                        f0 = [tg for v, tg in t["targets"] if v == 0]
+                        if f0 and (f0[0] == bi or f0[0] in dom[bi]):
+                            guarded = True
+                    if dd[2] == "assign" and dd[3]["rv"]["k"] == "discr" and dd[3]["rv"]["pl"]["l"] == nl:
+                        z = [tg for v, tg in t["targets"] if v == 0]
+                        if z and (z[0] == bi or z[0] in dom[bi]):
+                            guarded = True
+                if guarded:
+                    r.ok(key, "only while no name has been read yet")
+                else:
+                    r.fail(key, "the property name is (re)assigned at line %s without a test that none was read before: `\\p{sc=gc=Lu}` is "
+                                "accepted (only the last name counts) instead of being a syntax error" % pay.get("line"), facts.loc(fn, pay.get("line")))
     return r
